@@ -284,8 +284,22 @@ def gen_ni_history(seed):
         nmol = 1
         grids = [{"atom_grid": [200, 434], "prune": False}]
     ops = []
+    if not big and rng.chance(0.12):
+        # a data-set loop over look-alike molecules: the same atoms listed in another order
+        # (same natm / nbas, other per-atom layout), every object dropped and collected between
+        # the items, so that new objects tend to get the addresses of the old ones
+        nm_ = rng.choice(["LiH", "OH", "H2O"])  # per-atom angular-momentum layouts differ between the two orders
+        bas_ = rng.choice(["sto-3g", "6-31g"])
+        ds_ = rng.below(10**6)
+        mols = [{"name": nm_, "basis": bas_, "dseed": ds_}, {"name": REORDERED[nm_], "basis": bas_, "dseed": ds_ + 1}]
+        nmol = 2
+        tmpl = {"op": "call", "model": rng.below(nm), "grid": 0, "uks": bool(rng.chance(0.4)), "dms": [0], "max_memory": 2000, "calc": 0, "container": "single", "alias": None}
+        for it in range(rng.randint(3, 6)):
+            ops.append(dict(tmpl, mol=it % 2, dms=[rng.below(2)]))
+            ops.append({"op": "drop_all"})
+        return {"kind": "ni", "models": models, "mols": mols, "grids": grids[:1], "ops": ops, "perturb": rng.choice(PERTURBS)}
     for _ in range(rng.randint(3, 8)):
-        c = rng.weighted([("call", 8), ("reset", 1), ("build", 1), ("regrid", 1), ("regrid_inplace", 2 if nmol > 1 else 0), ("drop_all", 1)])
+        c = rng.weighted([("call", 16), ("reset", 2), ("build", 2), ("regrid", 2), ("regrid_inplace", 4 if nmol > 1 else 0), ("drop_all", 1)])
         if c == "drop_all":
             # a data-set loop: every long-lived object (molecules, grids, calculators) goes out
             # of scope and is collected; later calls build new ones, possibly at the same addresses
@@ -303,7 +317,7 @@ def gen_ni_history(seed):
                     "dms": [rng.below(3) for _ in range(nset)],
                     "max_memory": rng.choice([2000, 2000, 4000, 100, 4, 1.0]) if big else rng.choice(MAXMEMS),
                     # a second long-lived calculator for the same model (two KS objects in one script)
-                    "calc": int(rng.chance(0.25)),
+                    "calc": int(rng.chance(0.15)),
                     # a Python list of matrices is rejected by the CIDER integrators (AttributeError on .ndim):
                     # a rejection, not a result, so only stacked arrays are generated
                     # (a batch of one - shape (1, nao, nao) / (2, 1, nao, nao) - is a batch too)
@@ -315,7 +329,7 @@ def gen_ni_history(seed):
                 # a density far outside the range the settings were built for (poor initial guess):
                 # fresh objects reject it with the documented error, and so must long-lived ones;
                 # the objects are used again afterwards
-                ops[-1]["scale"] = rng.choice([8.0, 100.0, 3000.0])
+                ops[-1]["scale"] = rng.choice([3000.0, 1e5, 1e6])
                 ops[-1]["dms"] = ops[-1]["dms"][:1]
                 ops[-1]["container"] = "single"
                 ops[-1]["alias"] = None
@@ -430,9 +444,15 @@ def exec_ni_history(hist, rp):
             U._mols.clear()
             U._dms.clear()
             U._models.clear()
-            ks = ni = g = mol = model = None
+            ks = ni = g = mol = model = tmp = fn = arg = dms = None  # every local that may still hold them
             gc.collect()
             stats["everything_dropped_and_collected"] += 1
+            # the next item's molecule is created at once (as the loop of a script does), which
+            # is when the allocator is most likely to hand out a block that was just freed
+            for nxt in hist["ops"][step + 1 :]:
+                if nxt["op"] == "call":
+                    U.mol(nxt["mol"])
+                    break
             continue
         if c == "regrid":
             # replace the long-lived grids objects of this (mol, grid) by rebuilt-but-equal ones
